@@ -581,9 +581,9 @@ fn history_pass(acc: &mut Acc) {
             let desc: Vec<usize> = (0..m).rev().collect();
             let alt: Vec<usize> = (0..m).map(|i| if i % 2 == 0 { i / 2 } else { m - 1 - i / 2 }).collect();
             let hop: Vec<usize> = (0..m).map(|i| (i * 37) % m).collect();
-            for seq in [&asc, &desc, &alt, &hop] {
+            for (seq, offsets) in [(&asc, &[1usize, 3, 5][..]), (&desc, &[5, 1][..]), (&alt, &[3][..]), (&hop, &[1, 5][..]), (&asc, &[1, 3, 5, 7][..]), (&desc, &[7, 5][..]), (&hop, &[3, 7][..])] {
                 for &k in seq.iter() {
-                    for line in [10 * k + 1, 10 * k + 3, 10 * k + 5, 10 * k + 7] {
+                    for line in offsets.iter().map(|o| 10 * k + o) {
                         let f = cur::StackFrame::new("desc", "d", line);
                         let exp: Vec<String> = if line <= 10 * k + 5 { vec![format!("o{}:{}", k, 1000 + k)] } else { vec![] };
                         let gm: Vec<String> = mapper.remap_frame(&f).map(|x| format!("{}:{}", x.method(), x.line())).collect();
@@ -769,7 +769,7 @@ pub fn run(tier: Tier) -> i32 {
         prop: "C20",
         tier,
         level: "model_checking",
-        rule: format!("type gate: Send and Sync of {} public handle / iterator / result types (run-time evaluated auto-trait table). Schedules: every configuration is explored twice, each time in a pristine subprocess: by shuttle's exhaustive DFS (tasks under shuttle's scheduler) and by a baton scheduler over real OS threads (all interleavings of the steps; thread-locals behave as in production); the threads share one mapper, one mapper-with-index, one parsed cache and one mapping; {} thread configurations: all {} ordered pairs of the 16 scripts x 3 steps{}; a scheduling point before every API call and every iterator step; oracle: every thread observes exactly what its script observes alone. History pass: back-to-back queries on one shared cache / mapper (one thread, and two OS threads taking turns) for pairs of class names that collide under ten common 32-bit fingerprints, for a mapping of 70000 classes queried at index distances 65535 / 65536, and for one method with 33..401 ranges in non-ascending file order whose lines are asked in four different orders. states = schedules (complete executions); transitions = steps executed; distinct = distinct (configuration, schedule count)", table.len(), nconf, OPS.len() * OPS.len(), if t { ", all unordered pairs x 5 steps, all triples over 6 scripts x 3 steps" } else { ", three 3-thread configurations x 2 steps" }),
+        rule: format!("type gate: Send and Sync of {} public handle / iterator / result types (run-time evaluated auto-trait table). Schedules: every configuration is explored twice, each time in a pristine subprocess: by shuttle's exhaustive DFS (tasks under shuttle's scheduler) and by a baton scheduler over real OS threads (all interleavings of the steps; thread-locals behave as in production); the threads share one mapper, one mapper-with-index, one parsed cache and one mapping; {} thread configurations: all {} ordered pairs of the 16 scripts x 3 steps{}; a scheduling point before every API call and every iterator step; oracle: every thread observes exactly what its script observes alone. History pass: back-to-back queries on one shared cache / mapper (one thread, and two OS threads taking turns) for pairs of class names that collide under ten common 32-bit fingerprints, for a mapping of 70000 classes queried at index distances 65535 / 65536, and for one method with 33..401 ranges in non-ascending file order whose lines are asked in seven sequences (ascending, descending, alternating, hopping; hits only and hits mixed with misses). states = schedules (complete executions); transitions = steps executed; distinct = distinct (configuration, schedule count)", table.len(), nconf, OPS.len() * OPS.len(), if t { ", all unordered pairs x 5 steps, all triples over 6 scripts x 3 steps" } else { ", three 3-thread configurations x 2 steps" }),
         bounds: json!({"scripts": OPS, "configurations": nconf, "mapping": esc(MAPPING)}),
         assumptions,
         trusted_base: vec!["rustc/std (auto traits)".into(), "shuttle 0.9.3 DFS scheduler".into()],
